@@ -758,6 +758,82 @@ def fam_return_label_out(tier, rng):
 FAMILIES.append(fam_return_label_out)
 
 
+def fam_return_in_block(tier, rng):
+    """a plain RETURN (or RETURN label) that stands INSIDE a FOR body / SELECT CASE block / WHILE body of the routine: the
+    routine's blocks are left, the loop that holds the GOSUB goes on with its own limit and step.  And a GOSUB that is still
+    pending when its procedure ends: it is gone with the procedure, the RETURN of the caller's routine finds the caller's GOSUB"""
+    out = []
+    for inner in ("for", "select", "for+select", "select+for", "while", "for+for"):
+        for site in ("flat", "for", "for+select", "while"):
+            for where in ("main", "sub"):
+                for form in ("plain", "label"):
+                    if form == "label" and where == "sub":
+                        continue        # RETURN label is a module-level form
+                    b = B()
+                    i, j, k2 = var("I", "I"), var("J", "I"), var("K", "I")
+
+                    def wrapr(kind, body, v):
+                        if kind == "for":
+                            return [b.for_(v, lit("I", 1), lit("I", 5), None, body + [tok(b, "rj", v)], hasstep=False)]
+                        if kind == "select":
+                            return [b.select(lit("I", 7), [([eqt(lit("I", 7))], body)], [tok(b, "relse")])]
+                        return [b.let(var("W", "I"), lit("I", 0)),
+                                b.while_(bin_("<", var("W", "I"), lit("I", 2)), [b.let(var("W", "I"), bin_("+", var("W", "I"), lit("I", 1)))] + body)]
+                    rbody = [tok(b, "in"), b.ret("L") if form == "label" else b.ret(), tok(b, "never")]
+                    vs = [j, k2]
+                    for n, kind in enumerate(reversed(inner.split("+"))):
+                        rbody = wrapr(kind, rbody, vs[n % 2])
+                    routine = [b.label("SR"), tok(b, "sr")] + rbody + [tok(b, "rend"), b.ret()]
+                    core = [b.gosub("SR"), tok(b, "back", i)] + ([b.label("L"), tok(b, "at-l")] if form == "label" else [])
+                    if site == "flat":
+                        body = core + [b.gosub("SR"), tok(b, "back2")] if form == "plain" else core
+                    else:
+                        blk = core
+                        for kind in reversed(site.split("+")[1:]):
+                            blk = [b.select(lit("I", 2), [([eqt(lit("I", 2))], blk)], [tok(b, "else")])]
+                        if site.startswith("for"):
+                            body = [b.for_(i, lit("I", 1), lit("I", 3), None, [tok(b, "i", i)] + blk, hasstep=False)]
+                        else:
+                            body = [b.let(var("V", "I"), lit("I", 0)),
+                                    b.while_(bin_("<", var("V", "I"), lit("I", 2)), [b.let(var("V", "I"), bin_("+", var("V", "I"), lit("I", 1)))] + blk)]
+                    # an expression with a pending operand after it all: the value stack is what it was
+                    tail = [tok(b, "done", bin_("+", lit("I", 100), i))]
+                    if where == "main":
+                        p = prog([tok(b, "a")] + body + tail + [b.end()] + routine)
+                    else:
+                        p = prog([tok(b, "m0"), b.call("P", []), tok(b, "m1")], [sub("P", [], [tok(b, "a")] + body + tail + [b.exit("sub")] + routine)])
+                    out.append({"fam": "return-in-block:%s/%s/%s/%s" % (inner, site, where, form), "prog": p})
+    for leave in ("exit", "end", "function"):
+        for caller in ("main-routine", "sub-routine", "main-flat"):
+            for npending in (1, 2):
+                b = B()
+                inner = [tok(b, "s")] + [b.gosub("L%d" % n) for n in range(1, 2)] + [tok(b, "not-here"), b.exit("function" if leave == "function" else "sub")]
+                labs = []
+                for n in range(1, npending + 1):
+                    labs += [b.label("L%d" % n), tok(b, "l%d" % n)] + ([b.gosub("L%d" % (n + 1))] if n < npending else [])
+                inner = inner + labs + ([b.exit("function" if leave == "function" else "sub")] if leave != "end" else [])
+                if leave == "function":
+                    subs = [fun("F", "I", [], inner)]
+                    fc = fcall("F", "I", [], 0)
+                    call = tok(b, "f", fc)
+                    fc["sid"] = call["id"]
+                else:
+                    subs = [sub("S", [], inner)]
+                    call = b.call("S", [])
+                if caller == "main-routine":
+                    main = [b.gosub("R"), tok(b, "back"), b.end(), b.label("R"), tok(b, "r"), call, tok(b, "after"), b.ret(), tok(b, "never")]
+                elif caller == "main-flat":
+                    main = [tok(b, "a"), call, tok(b, "after"), b.ret(), tok(b, "never")]       # error 3: nothing is pending in the module
+                else:
+                    subs = subs + [sub("T", [], [b.gosub("R"), tok(b, "back"), b.exit("sub"), b.label("R"), tok(b, "r"), call, tok(b, "after"), b.ret()])]
+                    main = [tok(b, "a"), b.call("T", []), tok(b, "z")]
+                out.append({"fam": "gosub-pending-at-end:%s/%s/%d" % (leave, caller, npending), "prog": prog(main, subs)})
+    return out
+
+
+FAMILIES.append(fam_return_in_block)
+
+
 def cases(tier, seed):
     rng = random.Random(seed)
     out = []
